@@ -21,14 +21,20 @@ class _Injector:
     """Wraps open / json chunk writes / close / os.rename / os.remove as seen by
     torchtree.core.parameter_utils and raises Crash just before event number `crash_at`."""
 
-    def __init__(self, mod, crash_at):
-        self.mod, self.crash_at = mod, crash_at
+    def __init__(self, mod, crash_at, fault=False):
+        self.mod, self.crash_at, self.fault = mod, crash_at, fault
         self.events = []      # kinds, in order
         self.prims_done = 0   # completed primitive steps (model budget k)
         self.chunk_events = []
 
     def _event(self, kind):
         if self.crash_at is not None and len(self.events) == self.crash_at:
+            if self.fault:
+                # an I/O FAULT instead of a crash: the call fails with an OSError (disk full, quota, file size
+                # limit) and the process goes on
+                self.crash_at = None
+                import errno
+                raise OSError(errno.ENOSPC, "No space left on device (injected)")
             raise Crash(kind)
         self.events.append(kind)
 
@@ -144,6 +150,101 @@ def attempt(pu, Parameter, tmp, files, version, crash_at):
         after[fn] = open(os.path.join(tmp, fn)).read()
     k = inj.prims_done if outcome == "crash" else 16
     return after, k, inj.events, outcome
+
+
+def run_once(pu, Parameter, path, version, crash_at, fault=False):
+    """one save_parameters(path) in the directory as it is, crashing (or failing with an OSError) before event crash_at"""
+    inj = _Injector(pu, crash_at, fault)
+    saved_os = pu.os
+    pu.open = inj.open
+    pu.os = _OsProxy(inj)
+    outcome = "done"
+    try:
+        import warnings
+        with warnings.catch_warnings():
+            warnings.simplefilter("ignore")
+            pu.save_parameters(path, _params(Parameter, version))
+    except Crash:
+        outcome = "crash"
+    except OSError as e:
+        outcome = "oserror:" + type(e).__name__
+    finally:
+        del pu.open
+        pu.os = saved_os
+    return inj.events, outcome
+
+
+def read_dir(tmp):
+    """name -> content as a reader would get it by opening the name (a dangling link reads as absent)"""
+    out = {}
+    for fn in sorted(os.listdir(tmp)):
+        pth = os.path.join(tmp, fn)
+        if os.path.isdir(pth):
+            continue
+        try:
+            out[fn] = open(pth).read()
+        except OSError:
+            pass
+    return out
+
+
+def other_states_findings(c0=5):
+    """The same property in two situations outside the plain enumeration: (1) the checkpoint name is a SYMBOLIC LINK
+    (to a file in a run directory), a crash before every event of one write; (2) an I/O FAULT (OSError) while the new
+    file is written, the process surviving: afterwards the last good checkpoint must still be readable under the
+    name or its .old / .new sibling, and the name must not be a truncated file."""
+    pu, Parameter = _impl()
+    tmp = os.path.join(C.WORKROOT, PID, "fs2")
+    found = []
+
+    def setup(link):
+        shutil.rmtree(tmp, ignore_errors=True)
+        os.makedirs(os.path.join(tmp, "store"))
+        name = os.path.join(tmp, "ckpt.json")
+        if link:
+            target = os.path.join(tmp, "store", "real.json")
+            run_once(pu, Parameter, target, c0, None)
+            os.symlink(target if link == "absolute" else os.path.join("store", "real.json"), name)
+        else:
+            run_once(pu, Parameter, name, c0, None)
+        return name
+
+    n = 0
+    for link in ("absolute", "relative"):
+        name = setup(link)
+        events, _ = run_once(pu, Parameter, name, c0 + 1, None)
+        for e in range(len(events)):
+            name = setup(link)
+            _, oc = run_once(pu, Parameter, name, c0 + 1, e)
+            obs, _extra = observe(read_dir(tmp))
+            n += 1
+            if not good(c0, obs):
+                found.append((f"C18:unsafe:symbolic-link:{events[e]}",
+                              f"the checkpoint name is a symbolic link ({link}); crash before event {e} ({events[e]}) of "
+                              f"the next write: name/old/new = {obs}: the last good checkpoint {c0} cannot be read "
+                              f"under the name or its .old / .new sibling",
+                              dict(situation="symbolic-link", link=link, crash_event=e, kind=events[e], observed=obs)))
+                break
+    name = setup(None)
+    events, _ = run_once(pu, Parameter, name, c0 + 1, None)
+    for e, kind in enumerate(events):
+        if kind not in ("open", "chunk", "close"):
+            continue
+        if kind == "chunk" and e not in crash_choices(events):
+            continue
+        name = setup(None)
+        _, oc = run_once(pu, Parameter, name, c0 + 1, e, fault=True)
+        obs, _extra = observe(read_dir(tmp))
+        n += 1
+        if not good(c0, obs):
+            found.append((f"C18:unsafe:io-fault:{kind}",
+                          f"an OSError (disk full) at event {e} ({kind}) while the new file is written, the process "
+                          f"survives (save_parameters: {oc}): name/old/new = {obs}: the last good checkpoint {c0} is "
+                          f"lost or the name is a truncated file",
+                          dict(situation="io-fault", fault_event=e, kind=kind, outcome=oc, observed=obs)))
+            break
+    shutil.rmtree(tmp, ignore_errors=True)
+    return found, n
 
 
 def observe(files):
@@ -263,16 +364,21 @@ def run(tier, seed, replay=None):
                         dict(crash_events=list(ces), start_version=c0, observed=obs, outcomes=list(ocs)))
         return None
 
+    other_fs, n_other = other_states_findings(c0)
     ok_sync, info = sync()
     if not ok_sync:
         rep.proof = dict(obligations=1, discharged=0, axioms={}, theorems=["T4 translation"], ok=False)
         f = search()
         if f:
             rep.violation(*f)
-        else:
+        for g in other_fs:
+            rep.violation(*g)
+        if not f and not other_fs:
             rep.violation("C18:translator-failed", info, dict(error=info), False)
         return rep.finish()
     proved = C.handle_proof(rep, PID, search)
+    for g in other_fs:
+        rep.violation(*g)
 
     # property evaluated directly on every real history (cheap, always on)
     f = search()
@@ -319,7 +425,7 @@ def run(tier, seed, replay=None):
                 "rename, remove) or completing; non-trivial = at least one crash strictly inside a write; "
                 "distinct = distinct real crash-event sequences")
     rep.exhaustive = True
-    rep.extra = dict(traces_validated_against_impl=len(hist), crash_kind_distribution=kinds,
+    rep.extra = dict(traces_validated_against_impl=len(hist), symlink_and_io_fault_situations=n_other, crash_kind_distribution=kinds,
                      distinct_model_histories=len(distinct), history_depth=depth,
                      translator_units=["save_parameters -> gen/G_save.v"])
     return rep.finish()
